@@ -37,10 +37,18 @@ def deep_eq(a, b):
                 conj.append(e)
         return core.And(*conj) if conj else True
     if isinstance(a, AbsList) or isinstance(b, AbsList):
+        if isinstance(a, list) and not isinstance(a, AbsList):
+            a = AbsList(b.name, 0, b.elem, list(a), b.params)
+        if isinstance(b, list) and not isinstance(b, AbsList):
+            b = AbsList(a.name, 0, a.elem, list(b), a.params)
         if isinstance(a, AbsList) and isinstance(b, AbsList):
             return a.equals(b)
         return False
     if isinstance(a, AbsDict) or isinstance(b, AbsDict):
+        if isinstance(a, dict) and not isinstance(a, AbsDict):
+            a = AbsDict(b.name, 0, b._key, b.val, [list(kv) for kv in a.items()], params=b.params)
+        if isinstance(b, dict) and not isinstance(b, AbsDict):
+            b = AbsDict(a.name, 0, a._key, a.val, [list(kv) for kv in b.items()], params=a.params)
         if isinstance(a, AbsDict) and isinstance(b, AbsDict):
             return a.equals(b)
         return False
@@ -57,6 +65,22 @@ def deep_eq(a, b):
                 if e is not True:
                     conj.append(e)
         return core.And(*conj) if conj else True
+    if type(a) is type(b) and hasattr(a, "__dict__") and not isinstance(a, type) \
+            and type(a).__module__.split(".")[0] in ("bec2format", "register_crypto_plugin") \
+            and "__eq__" not in type(a).__dict__:
+        # plain data objects of the repository: structural comparison of their attributes
+        da, db = vars(a), vars(b)
+        keys = [k for k in da if not k.startswith("_j")]
+        if set(keys) != set(k for k in db if not k.startswith("_j")):
+            return False
+        conj = []
+        for k in keys:
+            e = deep_eq(da[k], db[k])
+            if e is False:
+                return False
+            if e is not True:
+                conj.append(e)
+        return core.And(*conj) if conj else True
     r = (a == b)
     if isinstance(r, (bool, SBool)):
         return r
@@ -68,8 +92,9 @@ class AbsList:
     _pyvc_symbolic = True
     _pyvc_islist = True
 
-    def __init__(self, name, n, elem, tail=None):
+    def __init__(self, name, n, elem, tail=None, params=()):
         self.name = name
+        self.params = tuple(params)
         self.n = n
         self.elem = elem
         self.tail = list(tail or [])
@@ -132,7 +157,7 @@ class AbsList:
         return cur().branch(toint(self._pyvc_len()) > 0)
 
     def _pyvc_as_list(self):
-        return AbsList(self.name, self.n, self.elem, self.tail)
+        return AbsList(self.name, self.n, self.elem, self.tail, self.params)
 
     def __delitem__(self, i):
         raise Undecided("del on an abstract list")
@@ -141,7 +166,9 @@ class AbsList:
         """same element function (by name) and same length; tails compared with the other side's
         elements (so that  L(i) + [x]  ==  L(i+1)  reduces to  x == elem(i))"""
         c = cur()
-        if self.name != o.name:
+        from .rope import args_provably_equal
+        if self.name != o.name or len(self.params) != len(o.params) or \
+                not all(args_provably_equal(p, q) for p, q in zip(self.params, o.params)):
             raise Undecided("comparison of abstract lists with different element functions")
         na, nb = self._nt(), o._nt()
         la = _simp(na + len(self.tail))
@@ -228,18 +255,34 @@ class AbsDict:
     _pyvc_symbolic = True
     _pyvc_isdict = True
 
-    def __init__(self, name, n, key, val, extra=None):
+    KEY_TERMS = {}      # dict name -> index terms whose key was taken (per process; reset per path via ctx.aux)
+
+    def __init__(self, name, n, key, val, extra=None, distinct_bound=None, params=()):
         self.name = name
+        self.params = tuple(params)
         self.n = n
-        self.key = key
+        self._key = key
         self.val = val
         self.extra = extra if extra is not None else []
+        self.neg = []
+        self.distinct_bound = distinct_bound    # keys key(t), 0 <= t < bound, are pairwise distinct
+
+    def key(self, t):
+        reg = cur().aux.setdefault("absdict_key_terms", {}).setdefault(self._regkey(), {})
+        tt = _simp(_t(t))
+        reg.setdefault(tt.sexpr(), tt)
+        return self._key(t)
 
     def _nt(self):
         return _simp(_t(self.n))
 
+    def _regkey(self):
+        from .rope import arg_key
+        return self.name + "{" + ",".join(arg_key(p) for p in self.params) + "}"
+
     def items(self):
-        return AbsList("items|" + self.name, self.n, lambda t: (self.key(t), self.val(t)), list(self.extra))
+        return AbsList("items|" + self.name, self.n, lambda t: (self.key(t), self.val(t)), list(self.extra),
+                       self.params)
 
     def _pyvc_len(self):
         t = _simp(self._nt() + len(self.extra))
@@ -249,12 +292,23 @@ class AbsDict:
     def _find_base(self, k):
         """index term s with key(s) == k among the first n entries, or None (forks)"""
         c = cur()
+        for kk in self.neg:
+            if c.valid(core.tobool(kk == k)):
+                return None
         s = z3.Int(c.fresh("idx"))
-        cond = z3.And(s >= 0, s < self._nt(), core.tobool(self.key(SInt(s)) == k))
+        ks = self._key(SInt(s))
+        if self.distinct_bound is not None:
+            B = _t(self.distinct_bound)
+            cands = dict(c.aux.get("absdict_key_terms", {}).get(self._regkey(), {}))
+            cands.setdefault(self._nt().sexpr(), self._nt())      # the next index (prefix dictionaries)
+            for tt in list(cands.values()):
+                c.fact(z3.Implies(z3.And(0 <= s, s < B, 0 <= tt, tt < B, s != tt),
+                                  core.tobool(ks != self._key(SInt(tt)))))
+        cond = z3.And(s >= 0, s < self._nt(), core.tobool(ks == k))
         if c.branch(cond):
             return SInt(s)
-        # negative membership fact for later reasoning: no base index maps to k
-        j = z3.Int(c.fresh("j"))
+        # this path is the one on which NO base index maps to k: remember it
+        self.neg.append(k)
         return None
 
     def __contains__(self, k):
@@ -294,6 +348,7 @@ class AbsDict:
     def equals(self, o):
         if self.name != o.name:
             raise Undecided("comparison of abstract dicts with different entry functions")
+        # parameters are compared by items().equals
         return self.items().equals(o.items())
 
     def __eq__(self, o):
